@@ -172,6 +172,21 @@ def neg_step_on_zero_chunk_axis(items, arr, mode):
     return False
 
 
+def dask_position_of_advanced_dim(items, ndim):
+    """Output position at which dask leaves the dimension of the (single) 1-d array indexer: the number of output
+    dimensions produced by the items written before it."""
+    p = 0
+    for it, axes in zip(items, C.item_axes(items, ndim)):
+        k = it["k"]
+        if k in ("ints", "bools"):
+            return p
+        if k == "none":
+            p += 1
+        elif k in ("slice", "ellipsis"):
+            p += len(axes)
+    return 0
+
+
 def check_getitem(case):
     arr = case["array"]
     items = case["index"]
@@ -196,6 +211,20 @@ def check_getitem(case):
             count("rejected-notimplemented")
             raise Reject(f"dask refuses: {e}")
         got = A.compute(r)
+    if sig["advanced_nonadjacent"]:
+        # Narrow signature for the listed finding `advanced-dim-not-moved-first`: the values are right but the dimension
+        # of the array indexer stays where it is written instead of moving to the front.  Anything else wrong in this
+        # input class is still reported as an ordinary value-mismatch.
+        p = dask_position_of_advanced_dim(items, len(arr["shape"]))
+        g, w = np.asarray(got), np.asarray(want)
+        if p and (g.shape != w.shape or not np.array_equal(g, w)):
+            moved = np.moveaxis(w, 0, p) if w.ndim > p else w
+            if g.shape == moved.shape and np.array_equal(g, moved):
+                raise Violation(
+                    f"{what}: dask keeps the indexed dimension in place (shape {g.shape}); NumPy moves it first (shape {w.shape})",
+                    "advanced-dim-in-place",
+                    **sig,
+                )
     compare(got, want, sig, what)
     # unknown sizes are legitimate for dask boolean indexers, and for a full-shape NumPy mask of a >=2-d array, which
     # normalize_index documents as being converted to a dask array
@@ -324,6 +353,15 @@ def check_blocks(case):
 
 
 def check(case):
+    try:
+        return _check(case)
+    except Violation as v:
+        # `raises` separates crashes from wrong answers in known-finding matches that cannot name a single exception type
+        v.sig["raises"] = str(v.sig.get("symptom", "")).startswith("raises:")
+        raise
+
+
+def _check(case):
     mode = case["mode"]
     if mode == "getitem":
         return check_getitem(case)
